@@ -196,7 +196,7 @@ class Scheduler:
                 continue
             tm._fire()
 
-    def _choose(self, cands: list[SimThread], me: SimThread | None, forced: bool) -> SimThread:
+    def _choose(self, cands: list[SimThread], me: SimThread | None, forced: bool, fair: bool = False) -> SimThread:
         """Pick among runnable candidates (sorted by ready_seq)."""
         cands = sorted(cands, key=lambda t: t.ready_seq)
         if len(cands) == 1:
@@ -213,7 +213,7 @@ class Scheduler:
             k = self.rng.randrange(len(cands))
             self.choices.append(k)
             return cands[k]
-        if self.policy == "pct":
+        if self.policy == "pct" and not fair:
             best = max(cands, key=lambda t: t.prio)
             self.choices.append(cands.index(best))
             return best
@@ -221,7 +221,7 @@ class Scheduler:
         self.choices.append(0)
         return cands[0]
 
-    def _pick(self, me: SimThread | None, voluntary=False):
+    def _pick(self, me: SimThread | None, voluntary=False, fair=False):
         """Select the next thread to run; advances virtual time if necessary. None => finished."""
         while True:
             if self.dead:
@@ -232,7 +232,7 @@ class Scheduler:
                 return None
             run = self._runnable()
             if run:
-                return self._choose(run, me, not voluntary)
+                return self._choose(run, me, not voluntary, fair)
             idle = [t for t in self.threads if t.state == RUNNABLE and t.idle_wait]
             if idle:
                 return idle[0]
@@ -247,8 +247,8 @@ class Scheduler:
                 self.now = nd
             self._fire_due()
 
-    def _switch(self, me: SimThread, voluntary=False):
-        nxt = self._pick(me, voluntary)
+    def _switch(self, me: SimThread, voluntary=False, fair=False):
+        nxt = self._pick(me, voluntary, fair)
         if nxt is None:
             raise SimKill
         if nxt is me:
@@ -305,9 +305,9 @@ class Scheduler:
                 me.ready_seq = next(self._rseq)
                 self._switch(me, voluntary=True)
             else:
-                # fair rotation so a spinning thread cannot starve the others
+                # fair rotation so a spinning thread cannot starve the others (also under PCT priorities)
                 me.ready_seq = next(self._rseq)
-                self._switch(me, voluntary=False)
+                self._switch(me, voluntary=False, fair=True)
             return
         if self.script is not None:
             if self.script_pos < len(self.script):
